@@ -377,6 +377,8 @@ func (r *kmRun) quant() {
 	x := make([]float32, n)
 	for i := range x {
 		x[i] = float32(float64(xi[i]) / math.Pow(2, float64(s)))
+		// what is logged is the value the quantiser really gets: a float32 has 24 significant bits, a drawn integer may have more
+		xi[i] = int64(float64(x[i]) * math.Pow(2, float64(s)))
 	}
 	trained := true
 	var absmax int64
